@@ -181,9 +181,9 @@ def comps_to_tensor(c: dict, d: int) -> np.ndarray:
 # ------------------------------------------------------------------------------------------------
 # case enumeration
 # ------------------------------------------------------------------------------------------------
-ELASTIC_MATERIALS = ["iso", "iso_pe", "transiso", "ortho", "aniso"]
+ELASTIC_MATERIALS = ["iso", "iso_pe", "transiso", "ortho", "aniso", "aniso_voigt"]
 HYPER_MATERIALS = ["svk", "mooney", "holzapfel"]
-AXES_MATERIALS = {"transiso", "ortho", "aniso", "holzapfel"}
+AXES_MATERIALS = {"transiso", "ortho", "aniso", "aniso_voigt", "holzapfel"}
 BEAM_THEORIES = ["EB", "TIMO"]
 
 
@@ -406,7 +406,7 @@ def _material(case, A, Q):
     if name == "ortho":
         return E.Orthotropic(d, E1=2.4, E2=1.3, E3=0.9, G23=0.45, G13=0.55, G12=0.6, v23=0.31, v13=0.27, v12=0.24,
                              axis_1=a1, axis_2=a2, planeStress=True, thickness=1.3)
-    if name == "aniso":
+    if name in ("aniso", "aniso_voigt"):
         n = 6 if d == 3 else 3
         C = _spd6(rng("c10-C", d), n)
         if d == 3:
@@ -416,6 +416,10 @@ def _material(case, A, Q):
             M = mandel_rotation(R, 3)
             C = M @ C @ M.T
             C = (C + C.T) / 2
+        if name == "aniso_voigt":
+            # the same stiffness entered in Voigt notation (engineering shear strains): C_voigt[i, j] = C_mandel[i, j] / (s_i s_j)
+            sv = np.array([1.0] * d + [_S2] * (n - d))
+            return E.Anisotropic(d, C / np.outer(sv, sv), True, axis1=a1, axis2=a2, thickness=1.3)
         return E.Anisotropic(d, C, False, axis1=a1, axis2=a2, thickness=1.3)
     raise KeyError(name)
 
